@@ -75,7 +75,7 @@ func init() {
 		}
 		timer := time.AfterFunc(15*time.Minute, func() { cmd.Process.Kill() })
 		defer timer.Stop()
-		var last []string
+		var last, pendingLeft []string
 		finished := false
 		sc := bufio.NewScanner(stdout)
 		sc.Buffer(make([]byte, 1<<20), 1<<24)
@@ -86,6 +86,13 @@ func init() {
 				last = append(last, line[4:])
 				if len(last) > 6 {
 					last = last[len(last)-6:]
+				}
+				// (a request that a peer left unanswered for good matters seconds later, when it expires: kept apart)
+				if strings.Contains(line, "does not answer") || strings.Contains(line, "LEAVES") {
+					pendingLeft = append(pendingLeft, line[4:])
+					if len(pendingLeft) > 40 {
+						pendingLeft = pendingLeft[len(pendingLeft)-40:]
+					}
 				}
 			case strings.HasPrefix(line, "HIT "):
 				c.Hit(line[4:])
@@ -108,8 +115,12 @@ func init() {
 					keep = append(keep, firstLine(l))
 				}
 			}
-			c.Fail("C15 class=process-terminated the node process terminated (%v) [%s]; the last messages remote peers sent, oldest first: %s",
-				werr, strings.Join(keep, " <- "), strings.Join(last, " ;; "))
+			leftNote := ""
+			if len(pendingLeft) > 0 {
+				leftNote = "; peers that LEFT, and what they had been asked for and did not answer (a request stays in flight until its time-out: hash request 5s, block request 9s): " + strings.Join(pendingLeft, " ;; ")
+			}
+			c.Fail("C15 class=process-terminated the node process terminated (%v) [%s]; the last messages remote peers sent, oldest first: %s%s",
+				werr, strings.Join(keep, " <- "), strings.Join(last, " ;; "), leftNote)
 			return
 		}
 		c.Emit("p2p-net-survived | ok")
